@@ -25,8 +25,8 @@ CONTRACT_GROUPS = ['C01']   # icontract layer (vlib/contracts.py) active inside 
 RULE = ("case = one generated configuration + point(s); non-trivial if functions were reported and at least one value was compared; "
         "distinct key = case index; monitor_counters.values_compared counts individual numbers checked")
 ASSUMPTIONS = ["the weight row reported in Realizations for a filtered function is the filter's output (checked for correctness by C04/C05)"]
-REQUIRED = {"quick": {"values_compared": 8000, "unfiltered_next_to_filtered": 300, "batch_compared": 1000, "bump_compared": 500, "with_nan": 300, "filter_rows_cross_checked": 1500, "__nontrivial__": 1246},
-            "thorough": {"values_compared": 150000, "unfiltered_next_to_filtered": 5000, "batch_compared": 20000, "bump_compared": 10000, "with_nan": 5000, "filter_rows_cross_checked": 30000, "__nontrivial__": 25268}}
+REQUIRED = {"quick": {"values_compared": 8000, "unfiltered_next_to_filtered": 300, "batch_compared": 1000, "bump_compared": 500, "with_nan": 300, "filter_rows_cross_checked": 1500, "history_calls_compared": 5000, "__nontrivial__": 1246},
+            "thorough": {"values_compared": 150000, "unfiltered_next_to_filtered": 5000, "batch_compared": 20000, "bump_compared": 10000, "with_nan": 5000, "filter_rows_cross_checked": 30000, "history_calls_compared": 100000, "__nontrivial__": 25268}}
 N = {"quick": 3000, "thorough": 60000}
 TOL = 1e-10
 
@@ -319,5 +319,51 @@ def run_case(case, obs):
                 obs.count("bump_compared")
                 if not (a == b2 or (np.isnan(a) and np.isnan(b2))):
                     obs.violation("influenced_by_other_function", function=j, bumped=k, before=float(a), after=float(b2))
+    # one evaluator object (its filters and estimators) serves a history of evaluations whose values and failure pattern
+    # change from call to call: every result equals the one a fresh evaluator computes for that call alone
+    H = int(rng.integers(2, 5))
+    XH = rng.normal(size=(H, spec["V"]))
+    F = n_obj + n_con
+    per_call = [[{"call": None, "r": int(r), "p": -1, "col": int(rng.integers(F))} for r in range(R) if rng.random() < 0.25] for _ in range(H)]
+    hist = dict(spec)
+    hist["nan"] = [dict(rule, call=k) for k, rules in enumerate(per_call) for rule in rules]
+    evh = ens.RecordingEvaluator(hist)
+    eeh = EnsembleEvaluator(cfg, None, evh, pm)
+    for k in range(H):
+        try:
+            (rh,) = eeh.calculate(XH[k], compute_functions=True, compute_gradients=False)
+        except OptimizationAborted:
+            rh = None
+        one = dict(spec)
+        one["nan"] = per_call[k]
+        ev1 = ens.RecordingEvaluator(one)
+        try:
+            (r1,) = EnsembleEvaluator(cfg, None, ev1, pm).calculate(XH[k], compute_functions=True, compute_gradients=False)
+        except OptimizationAborted:
+            r1 = None
+        obs.count("history_calls_compared")
+        if (rh is None) != (r1 is None) or (rh is not None and (rh.functions is None) != (r1.functions is None)):
+            obs.violation("history_vs_fresh_presence", call=k, history=None if rh is None else rh.functions is not None,
+                          fresh=None if r1 is None else r1.functions is not None, nan_rules=per_call)
+            break
+        if rh is None:
+            continue
+        bad = None
+        for name in ("failed_realizations", "objective_weights", "constraint_weights"):
+            a, c = getattr(rh.realizations, name), getattr(r1.realizations, name)
+            if (a is None) != (c is None) or (a is not None and not np.array_equal(a, c, equal_nan=True)):
+                bad = ("realizations." + name, a, c)
+        if rh.functions is not None:
+            for name in ("objectives", "constraints", "weighted_objective"):
+                a, c = getattr(rh.functions, name), getattr(r1.functions, name)
+                if (a is None) != (c is None) or (a is not None and not np.array_equal(a, c, equal_nan=True)):
+                    bad = ("functions." + name, a, c)
+        if bad is not None:
+            obs.violation("history_vs_fresh", call=k, field=bad[0], history=bad[1], fresh=bad[2], nan_rules=per_call)
+            break
+        if k and rh.functions is not None:
+            # the fresh result of this call is itself judged against the reference model
+            c0 = ev1.calls[0]
+            expected_functions(obs, one, cfg, r1, c0.objectives, c0.constraints)
     obs.sample({"R": R, "n_obj": n_obj, "n_con": n_con, "rweights": spec["rweights"], "filters": spec.get("filters"),
                 "omap_f": spec.get("omap_f"), "estimators": spec.get("estimators"), "nan_rules": len(spec["nan"]), "batch": B})
